@@ -603,6 +603,15 @@ def unit_sac(autotune, Bc=3):
 from lvc.kit import uf_names_of  # noqa: E402
 
 
-UNITS = [("dqn-loss", unit_dqn_loss), ("dqn-grad", unit_dqn_grad), ("call-sites", unit_call_sites), ("sac:autotune", unit_sac(True)), ("sac:fixed-alpha", unit_sac(False)),
+def _stored_flags(kind):
+    """the done / timeout flags (and reward, successor observation) a target is computed from are the ones stored WITH that transition: ReplayBuffer.add writes every field of one
+    insertion into the same slot, also after wrap-around (contract stated in C06) - a stale timeout flag would bootstrap through a true termination"""
+    def unit(S):
+        from contracts import C06
+        C06.unit_add(kind)(S)
+    return unit
+
+
+UNITS = [("stored-flags:box", _stored_flags("box")), ("stored-flags:discrete", _stored_flags("discrete")), ("dqn-loss", unit_dqn_loss), ("dqn-grad", unit_dqn_grad), ("call-sites", unit_call_sites), ("sac:autotune", unit_sac(True)), ("sac:fixed-alpha", unit_sac(False)),
          ("sac:autotune:B2", unit_sac(True, 2)), ("sac:fixed-alpha:B4", unit_sac(False, 4))]
 THOROUGH_ONLY = {"sac:autotune:B2", "sac:fixed-alpha:B4"}
